@@ -82,6 +82,14 @@ def _lose(plan_entry: dict, job) -> None:
     names = [posixpath.join(s, t) for s, t in plan_entry.get("lose", [])] or [job.name]
     for name in [posixpath.join(s, t) for s, t in plan_entry.get("replicate", [])]:
         _replicate(name)
+    for st, tg, fname in plan_entry.get("lose_files", []):      # ONE file of a job's output (e.g. one field of a record)
+        name = posixpath.join(st, tg)
+        dirs = _job_dirs(name)
+        path = os.path.join(dirs[1], fname) if dirs else None
+        if path and os.path.exists(path):
+            os.remove(path)
+            STATE["deleted"].append((name, path))
+            _ev("lose", name)
     for name in names:
         dirs = _job_dirs(name)
         if name == job.name and dirs is None:
@@ -118,6 +126,15 @@ def _replicate(job_name: str) -> None:
             _ev("replica", job_name)
 
 
+def _exc(p, default_cls, msg: str):
+    """the exception an injected failure raises: the repo's own WorkflowExecutionException by default, or — plan key `exc` — a
+    non-StreamFlow exception as a connector / plugin / OS error would surface (ConnectionResetError, OSError, ValueError, TimeoutError)"""
+    import builtins
+    name = (p or {}).get("exc")
+    cls = getattr(builtins, name) if name else default_cls
+    return cls(msg)
+
+
 def _inject(step_name: str, job, phase: str) -> bool:
     from streamflow.core.utils import get_job_tag
     tag = get_job_tag(job.name)
@@ -125,6 +142,7 @@ def _inject(step_name: str, job, phase: str) -> bool:
     if p is None:
         return False
     p["count"] = p.get("count", 1) - 1
+    STATE["last_injected"] = p
     STATE["injected"].append((job.name, phase, p["kind"]))
     if p["kind"] == "failstop":
         _lose(p, job)
@@ -156,6 +174,10 @@ def _classes():
                     reg[d] = [bool(ctx_.data_manager.get_data_locations(d, loc.deployment, loc.name)), os.path.isdir(d)]
             STATE["avail"].append((job.name, reg))
             if _inject(step_name, job, "execute"):
+                if STATE["last_injected"].get("exc"):
+                    # the command itself raises (e.g. the connection to the location is reset), nothing is recorded
+                    _ev("fail", job.name)
+                    raise _exc(STATE["last_injected"], WorkflowExecutionException, f"Injected {STATE['last_injected']['exc']} into {step_name}")
                 context = self.step.workflow.context
                 cmd_out = CommandOutput("Injected failure", Status.FAILED)
                 job_token = get_job_token(job.name, self.step.get_job_port().token_list)
@@ -164,7 +186,30 @@ def _classes():
                     {"status": cmd_out.status})
                 _ev("fail", job.name)
                 return cmd_out
-            out = await super().execute(job)
+            try:
+                op = eval(self.command)(job.inputs)  # noqa: S307  (the repo's test command does the same)
+            except Exception:  # noqa: BLE001
+                op = None
+            if op and op[0] == "mkrecord":
+                # a job whose output is a RECORD of three files written into its output directory (content derived from its input)
+                os.makedirs(job.output_directory, exist_ok=True)
+                src = op[2]
+                text = open(src).read() if isinstance(src, str) and os.path.isfile(src) else str(src)
+                value = {}
+                for k in range(3):
+                    path = os.path.join(job.output_directory, f"rec-f{k}")
+                    with open(path, "w") as fh:
+                        fh.write(f"{text}|field{k}")
+                    value[f"f{k}"] = {"class": "File", "path": path, "basename": f"rec-f{k}"}
+                value["threshold"] = 7          # a mixed record: a non-file field that always survives
+                out = CommandOutput(value, Status.COMPLETED)
+                context = self.step.workflow.context
+                job_token = get_job_token(job.name, self.step.get_job_port().token_list)
+                await context.database.update_execution(
+                    await context.database.add_execution(self.step.persistent_id, job_token.persistent_id, self.command),
+                    {"status": out.status})
+            else:
+                out = await super().execute(job)
             _ev("exec" if out.status == Status.COMPLETED else "fail", job.name)
             return out
 
@@ -173,7 +218,7 @@ def _classes():
             step_name = self.job_prefix
             if _inject(step_name, job, "schedule"):
                 _ev("fail", job.name)
-                raise WorkflowExecutionException(f"Injected error into {self.name} step")
+                raise _exc(STATE["last_injected"], WorkflowExecutionException, f"Injected error into {self.name} step")
             await _gates(job.name, 1 + sum(1 for n, _ in STATE["dirs"] if n == job.name), "schedule")
             await ScheduleStep._set_job_directories(self, connector, locations, job)
             STATE["dirs"].append((job.name, [job.input_directory, job.output_directory, job.tmp_directory]))
@@ -184,7 +229,7 @@ def _classes():
             top = any(token is t for t in job.inputs.values())
             if top and _inject(step_name, job, "transfer"):
                 _ev("fail", job.name)
-                raise WorkflowExecutionException(f"Injected error into {self.name} step")
+                raise _exc(STATE["last_injected"], WorkflowExecutionException, f"Injected error into {self.name} step")
             out = await super().transfer(job, token)
             if top:
                 done = STATE["ports_done"].setdefault(job.name, set())
@@ -261,9 +306,13 @@ def _trace_failure_manager(context) -> None:
         return r
 
     async def is_recovering(job_name):
+        try:
+            seen = fm.context.scheduler.get_allocation(job_name).status.name      # what the status test is about to read
+        except Exception:  # noqa: BLE001
+            seen = "UNKNOWN"
         res = await orig_is(job_name)
         if job_name in held.get(rid(), set()):
-            ev.append(["check", rid(), job_name, bool(res)])
+            ev.append(["check", rid(), job_name, bool(res), seen])
         return res
 
     async def _update_request(job_name):
@@ -354,6 +403,18 @@ async def _build(case: dict, context, workflow, translator, dep: str, location):
             st = stage(f"s{i}", ports, "out", "file" if kind == "file" else "primitive")
             ports = st.get_output_ports()
         return {"out": ports["out"]}, steps
+    if shape["kind"] == "record":
+        # source -> a (output: a record = ObjectToken of three files) -> b (copies field f1 of the record)
+        value = await _file(context, location, "payload-record")
+        a = translator.get_execute_pipeline(command="lambda x : ('mkrecord', 'object', x['out'].value['path'] if isinstance(x['out'].value, dict) else x['out'].value)",
+                                            deployment_names=[dep], input_ports={"out": await source("out", value)},
+                                            outputs={"out": "object"}, step_name="/a", workflow=workflow)
+        steps["/a"] = a
+        b = translator.get_execute_pipeline(command="lambda x : ('copy', 'file', x['out'].value['f1'].value)", deployment_names=[dep],
+                                            input_ports={"out": a.get_output_port("out")}, outputs={"out": "file"}, step_name="/b",
+                                            workflow=workflow)
+        steps["/b"] = b
+        return {"out": b.get_output_port("out")}, steps
     if shape["kind"] == "scatter":
         m = shape["m"]
         value = [await _file(context, location, f"payload-{i}") for i in range(m)]
@@ -556,22 +617,53 @@ def run_case(case: dict) -> dict:
     try:
         if case.get("lseed") is not None:
             from sfv.rt.loop import run_controlled
-            return run_controlled(lambda: _run(case), case["lseed"], timeout=case.get("timeout", 180) + 60)
+            try:
+                return run_controlled(lambda: _run(case), case["lseed"], timeout=case.get("timeout", 180) + 60)
+            except (TimeoutError, asyncio.TimeoutError):
+                return {"outcome": "hang", "msg": "time-out of the controlled loop", "attempts": {}, "versions": {}, "injected": [], "events": [],
+                        "timeline": [], "deleted": [], "dirs": [], "avail": [], "statuses": {}, "outputs": {}, "fm_events": [], "plan_left": []}
         return _run_loop(_run(case))
     finally:
         shutil.rmtree(root, ignore_errors=True)
 
 
-def run_cases(cases: list, timeout: float = 300, workers: int = 6):
-    """pmap over `run_case`; a case whose worker gave no result in time is retried once in a fresh worker (a stuck worker
-    process — e.g. a thread of the sqlite layer surviving the event loop — is infrastructure, a hang that repeats is a result)"""
+def run_confirmed(ctx, fn, cases: list, timeout: float = 300, workers: int = 6, inner_default: float = 180, factor: int = 5,
+                  is_hang=None, name=lambda c: str(c.get("name", c.get("idx", "?")))):
+    """pmap over `fn`, with the rule that a WALL-CLOCK time-out is never a verdict by itself: a case whose worker gave no result in time
+    (`status == "timeout"`) or whose own watchdog fired (`is_hang(result)`) is re-run ALONE, after the pool has drained, with `factor`
+    times the bounds (`case["timeout"]` is the case's own watchdog). If it completes then, the new result is used and a note
+    "slow under load" is recorded; if it hangs again the hang is reported (`confirmed: True`); if the remaining budget does not allow the
+    confirmation the check is inconclusive (exit 2), never a violation."""
+    from sfv.framework import Inconclusive
     from sfv.rt.par import pmap
-    again = []
-    for case, status, r in pmap(run_case, cases, timeout=timeout, workers=workers):
-        if status == "timeout":
-            again.append(case)
+    is_hang = is_hang or (lambda r: isinstance(r, dict) and r.get("outcome") == "hang")
+    suspects = []
+    for case, status, r in pmap(fn, cases, timeout=timeout, workers=workers):
+        if status == "timeout" or (status == "ok" and is_hang(r)):
+            suspects.append((case, status))
         else:
             yield case, status, r
-    if again:
-        for case, status, r in pmap(run_case, again, timeout=timeout, workers=min(workers, len(again))):
-            yield case, status, r
+    for case, status in suspects:
+        inner = factor * float(case.get("timeout", inner_default))
+        bound = inner + 240
+        if ctx is not None and ctx.time_left() < bound:
+            raise Inconclusive(f"case {name(case)} hit its {'worker' if status == 'timeout' else 'own'} time-out under load and the remaining "
+                               f"budget ({ctx.time_left():.0f}s) does not allow the confirmation run ({bound:.0f}s)")
+        t0 = time.time()
+        (_, st2, r2), = list(pmap(fn, [dict(case, timeout=inner)], timeout=bound, workers=1))
+        if st2 == "ok" and not is_hang(r2):
+            if ctx is not None:
+                ctx.count("slow-under-load")
+                ctx.notes.append(f"slow under load: {name(case)} hit its time-out in the pool and completed in {time.time() - t0:.0f}s when re-run alone")
+            yield case, st2, r2
+        elif st2 == "timeout":
+            yield case, "timeout", f"no result within {timeout}s in the pool and none within {bound:.0f}s when re-run alone (confirmed)"
+        else:
+            if isinstance(r2, dict):
+                r2 = dict(r2, confirmed=True)
+            yield case, st2, r2
+
+
+def run_cases(cases: list, timeout: float = 300, workers: int = 6, ctx=None):
+    """recovery cases through `run_confirmed`"""
+    yield from run_confirmed(ctx, run_case, cases, timeout=timeout, workers=workers, inner_default=180)
